@@ -66,12 +66,12 @@ def gen_scale(rng: random.Random, tier: str) -> dict:
     s = float(np.std(x)) or 1.0
     m = float(np.mean(x))
     xn = [m + s * rng.gauss(0, 2) for _ in xn]
-    return {"fn": fn, "flags": flags, "x": x, "xnew": xn, "dec": dec, "off": off, "path": rng.choice(["mm", "direct"])}
+    return {"fn": fn, "flags": flags, "x": x, "xnew": xn, "dec": dec, "off": off, "path": rng.choice(["mm", "mm", "direct", "direct", "mm_quoted"])}
 
 
-def call_text(fn, flags):
+def call_text(fn, flags, var="x"):
     args = "".join(f", {k}={v!r}" for k, v in flags.items())
-    return f"{fn}(x{args})"
+    return f"{fn}({var}{args})"
 
 
 def run_transform(case, expr):
@@ -87,6 +87,18 @@ def run_transform(case, expr):
             mm = model_matrix("0 + " + expr, pd.DataFrame({"x": x}), na_action="ignore", context={})
             rp = mm.model_spec.get_model_matrix(pd.DataFrame({"x": xn}))
         return dense(mm), dense(rp)
+    if case["path"] == "mm_quoted":
+        # the column can only be named in backticks, next to another quoted column and a plain column whose names all
+        # sanitize to the same Python identifier; each transform call must keep statistics of its own
+        def frame(v):
+            return pd.DataFrame({"x v": 3 * v[::-1] + 7, "x+v": v, "x_v": -v})
+
+        e1, e2 = expr.replace("(x", "(`x v`", 1), expr.replace("(x", "(`x+v`", 1)
+        with quiet():
+            mm = model_matrix(f"0 + {e1} + {e2}", frame(x), na_action="ignore", context={})
+            rp = mm.model_spec.get_model_matrix(frame(xn).drop(columns=["x_v"]) if len(xn) % 2 else frame(xn))
+        k = len(mm.model_spec.column_names) // 2
+        return dense(mm)[:, k:], dense(rp)[:, k:]
     state: dict = {}
     fn = TRANSFORMS[case["fn"]]
     kw = dict(case.get("flags", {}))
@@ -179,7 +191,7 @@ def gen_poly(rng: random.Random, tier: str) -> dict:
     m = float(np.mean(x))
     xn = [m + s * rng.uniform(-1.5, 1.5) for _ in range(rng.choice([1, 4, 9]))]
     return {"fn": "poly", "degree": degree, "raw": raw, "x": x, "xnew": xn, "nan_rows": nan_rows, "dec": dec, "off": off,
-            "path": rng.choice(["mm", "direct"])}
+            "path": rng.choice(["mm", "mm", "direct", "direct", "mm_quoted"])}
 
 
 def judge_poly(case) -> Outcome:
@@ -267,11 +279,16 @@ INVERSE = {"log": "exp", "exp": "log", "log2": "exp2", "exp2": "log2", "log10": 
 
 def gen_elem(rng: random.Random, tier: str) -> dict:
     name = rng.choice(sorted(ELEM))
-    if ELEM[name][1]:
+    dtype = rng.choice(["float64", "float64", "int64", "int32", "float32"])
+    if dtype.startswith("int"):  # whole numbers held in an integer column: the functions are still the real-valued ones
+        xs = [rng.randint(1, 10 ** rng.randint(1, 8)) for _ in range(20)] if ELEM[name][1] else [rng.randint(-12, 25) for _ in range(20)]
+    elif ELEM[name][1]:
         xs = [10.0 ** rng.uniform(-8, 8) for _ in range(25)]
     else:
         xs = [rng.uniform(-20, 20) for _ in range(25)] + [float(rng.randint(-5, 5)) for _ in range(5)]
-    return {"name": name, "x": xs, "path": rng.choice(["mm", "direct"])}
+    if dtype == "float32":
+        xs = [float(np.float32(v)) for v in xs]
+    return {"name": name, "x": xs, "path": rng.choice(["mm", "direct"]), "dtype": dtype}
 
 
 def judge_elem(case) -> Outcome:
@@ -281,8 +298,10 @@ def judge_elem(case) -> Outcome:
 
     out = Outcome()
     name = case["name"]
-    out.sig = (name, case["path"], tuple(int(math.log10(abs(v) + 1e-300)) for v in case["x"][:6]))
-    x = np.array(case["x"], float)
+    dtype = case.get("dtype", "float64")
+    out.sig = (name, case["path"], dtype, tuple(int(math.log10(abs(v) + 1e-300)) for v in case["x"][:6]))
+    x = np.array(case["x"], dtype=dtype)
+    rtol = 1e-12 if dtype != "float32" else 2e-6  # float32 columns may be computed in single precision
 
     def apply(nm, v):
         if case["path"] == "direct":
@@ -292,13 +311,13 @@ def judge_elem(case) -> Outcome:
     try:
         got = apply(name, x)
         ref = np.array([ELEM[name][0](float(v)) for v in x])
-        if not np.allclose(got, ref, rtol=1e-12, atol=0):
+        if not np.allclose(got, ref, rtol=rtol, atol=0):
             i = int(np.argmax(np.abs(got - ref) / np.abs(ref)))
             out.fail("c13.elementwise_value", f"{name}({x[i]!r}) = {got[i]!r}, math gives {ref[i]!r} (path {case['path']})")
             return out
         inv = INVERSE[name]
         back = apply(inv, got)
-        if not np.allclose(back, x, rtol=1e-9, atol=1e-9):
+        if not np.allclose(back, x, rtol=max(1e-9, 10 * rtol), atol=max(1e-9, 1e3 * rtol)):
             out.fail("c13.elementwise_inverse", f"{inv}({name}(x)) != x, e.g. x={x[0]!r} -> {back[0]!r}")
     except Exception as e:  # noqa: BLE001
         out.fail("c13.raised", f"{name}: {type(e).__name__}: {str(e)[:200]}")
